@@ -1,4 +1,4 @@
-ENTRY = {'modules': ['VirtioVerif.Props.C19Drivers', 'VirtioVerif.Props.C19', 'VirtioVerif.Props.C19Init'],
+ENTRY = {'modules': ['VirtioVerif.Props.C19Drivers', 'VirtioVerif.Props.C19', 'VirtioVerif.Props.C19Init', 'VirtioVerif.Props.EvQueueRefines'],
  'assumptions': ['abstract queue (Model/EvQueue.lean, assumptions A1-A4): one-descriptor chains; add fails '
                  'with QueueFull iff posted+used+1 > SIZE; peek/pop follow used-ring order; pop_used returns '
                  "the device's length and copies the device-visible bytes back; the device completes only "
